@@ -413,7 +413,8 @@ fcppt::container::raw_vector::object<T, A>::erase(
     this->impl_.last_ -= _right - _left;
   }
 
-  return _right;
+  // The element that followed the erased range is now at _left (as for std::vector).
+  return _left;
 }
 
 template <typename T, typename A>
